@@ -44,4 +44,38 @@ func factsC14() {
 		return true
 	})
 	addBool("c14CmNilDataBecomesEmpty", nilToEmpty, "handlersCore/cmChange replaces a nil data map by an empty map before storing it")
+	// handler table: watched type of every hdlr literal that has `full: true`, in source order
+	var fullTypes, allTypes []string
+	ast.Inspect(load(w).f, func(n ast.Node) bool {
+		cl, ok := n.(*ast.CompositeLit)
+		if !ok {
+			return true
+		}
+		typ, full := "", false
+		for _, el := range cl.Elts {
+			kv, ok := el.(*ast.KeyValueExpr)
+			if !ok {
+				continue
+			}
+			switch exprString(kv.Key) {
+			case "typ":
+				if u, ok := kv.Value.(*ast.UnaryExpr); ok {
+					if c, ok := u.X.(*ast.CompositeLit); ok {
+						typ = exprString(c.Type)
+					}
+				}
+			case "full":
+				full = exprString(kv.Value) == "true"
+			}
+		}
+		if typ != "" {
+			allTypes = append(allTypes, typ)
+			if full {
+				fullTypes = append(fullTypes, typ)
+			}
+		}
+		return true
+	})
+	addStrList("c14HandlerTypes", allTypes, "watched type of every hdlr literal in watchers.go, in source order")
+	addStrList("c14FullTypes", fullTypes, "watched type of every hdlr literal with full: true, in source order")
 }
